@@ -86,6 +86,7 @@ class Target:
         self.fail_at = None      # raise at the k-th call (0-based over both callables)
         self.shift0 = 0.0        # offset of coordinate 0's prior interval
         self.answers_in = None   # None: answer in the samples' namespace and dtype; "float32"/"float64": NumPy arrays of that width
+        self.answers_ns = None   # "torch": answer with torch tensors whatever the samples' namespace (a model written in torch)
         self.ncalls = 0
 
     def _x(self, samples):
@@ -134,6 +135,9 @@ class Target:
         self._tick()
         x = self._x(samples)
         self.calls.append(("prior", len(x), None, self._names_ok(samples)))
+        if self.answers_ns == "torch":
+            import torch
+            return torch.as_tensor(np.asarray(self.Pi(x), dtype=float))
         if self.answers_in is not None:       # a user model that answers in its own precision (NumPy), whatever was requested
             return np.asarray(self.Pi(x), dtype=self.answers_in)
         return samples.xp.asarray(self.Pi(x), dtype=samples.dtype) if hasattr(samples, "xp") else self.Pi(x)
@@ -145,6 +149,9 @@ class Target:
         ok = lp is not None and np.allclose(np.asarray(nsutil.to_list(lp), dtype=float), self.Pi(x), rtol=1e-5, atol=1e-5, equal_nan=True) \
             and len(np.atleast_1d(np.asarray(nsutil.to_list(lp)))) == len(x)
         self.calls.append(("lik", len(x), bool(ok), self._names_ok(samples)))
+        if self.answers_ns == "torch":
+            import torch
+            return torch.as_tensor(np.asarray(self.L(x), dtype=float))
         if self.answers_in is not None:
             return np.asarray(self.L(x), dtype=self.answers_in)
         return samples.xp.asarray(self.L(x), dtype=samples.dtype)
